@@ -415,7 +415,7 @@ Example C06_ex_json :
     = Ok (Some (VStr (b "[1,null,""a\u003cb"",{""a"":null,""k"":true}]")))
   /\ is_err (dir_json (Some (VFloat FNaN)) []) = true
   /\ dir_json (Some (VFloat (FFin 3 (-1)))) [] = Ok (Some (VStr (b "1.5")))
-  /\ dir_json (Some (VList 0 [])) [] = Ok (Some (VStr (b "null")))
+  /\ dir_json (Some (VList 0 [])) [] = Ok (Some (VStr (if json_nil_null then b "null" else b "[]")))   (* a nil list: [] since /repo 234aef6, read from the source *)
   /\ dir_json None [] = Ok (Some (VStr (b "null"))).
 Proof. vm_compute. repeat split; reflexivity. Qed.
 Example C06_ex_round_digits :
